@@ -248,6 +248,12 @@ def apply_edit(ctx, w, e):
         l.reverse()
     elif t == "clear":
         l.clear()
+    elif t == "remove":
+        c = ctx.objs[e[1]]
+        present = [x for x in l if (x if k == "lbox" else x[0]) is c]
+        l.remove(present[0] if present else it(e[1]))
+    elif t == "iadd":
+        l.__iadd__([it(c) for c in e[1]])
     elif t == "assign":
         if k == "lbox":
             l[:] = [it(c) for c in e[1]]
@@ -921,7 +927,7 @@ class Gen:
         def iidx():
             return r.choice(list(range(n)) * 2 + [-1, -n, n, -n - 1, 0, 1] if n else [0, -1, 1])
         t = r.choice(["append", "append", "insert", "insert", "delitem", "delitem", "setitem", "delslice", "setslice",
-                      "extend", "pop", "reverse", "clear", "assign"])
+                      "extend", "pop", "reverse", "clear", "assign", "remove", "remove", "iadd"])
         new = lambda: self.new_child_for(m, i, nobox)
         try:
             if t == "append":
@@ -971,6 +977,17 @@ class Gen:
             elif t == "clear":
                 e = [t]
                 del kids[:]
+            elif t == "remove":
+                # usually a present child (often the only selectable one), sometimes a widget that is not there
+                selk = [c for c in kids if m.nodes[c]["k"] == "leaf" and m.nodes[c]["sel"]]
+                if kids and r.random() < 0.85:
+                    e = [t, r.choice(selk) if selk and r.random() < 0.6 else r.choice(kids)]
+                    kids.remove(e[1])
+                else:
+                    e = [t, new()]
+            elif t == "iadd":
+                e = [t, [new() for _ in range(r.choice([0, 1, 2]))]]
+                kids.extend(e[1])
             else:
                 e = [t, [new() for _ in range(r.choice([0, 1, 2, 3]))]]
                 kids[:] = list(e[1])
@@ -1183,6 +1200,10 @@ def enc_edit(e):
         return [10]
     if t == "clear":
         return [14]
+    if t == "remove":
+        return [9, e[1]]
+    if t == "iadd":
+        return [12, len(e[1])] + list(e[1])
     if t == "assign":
         return [4, 0, 0, 0, len(e[1])] + list(e[1])
     raise core.MachineryError("edit " + t)
@@ -1289,15 +1310,15 @@ class C08(core.Check):
                   "focuses its top widget (focus_valid_inv); an invalid assignment raises IndexError and no focus anywhere changes; "
                   "selectable() of a Pile/Columns equals any(child.selectable()) right after its contents were set (GridFlow: always); "
                   "the focus path read from a tree can be written back to any later heap of the same shape and is read back identically "
-                  "(tree hypothesis: no widget twice on the path).  PARTIAL (proved under the hypothesis that no ListBox has a pending "
-                  "set_focus request, which every render establishes): a key is offered only to leaves on the focus path; only leaves on "
-                  "the focus path are rendered with focus=True and render changes nothing; a key not bound to a navigation command and "
-                  "handled by no leaf comes back unchanged (additionally: no Pile with a stale selectable()==False cache).  PARTIAL "
+                  "(tree hypothesis: no widget twice on the path); a key not bound to a navigation command that no offered leaf "
+                  "handles comes back unchanged whenever keypress returns - no premise on caches or pending requests since the "
+                  "repairs of Pile.keypress and of the empty Columns (unhandled_key_unchanged).  PARTIAL (proved under the hypothesis "
+                  "that no ListBox has a pending set_focus request, which every render establishes): a key is offered only to leaves on "
+                  "the focus path; only leaves on the focus path are rendered with focus=True and render changes nothing.  PARTIAL "
                   "(local): the child that Pile/Columns up/down/left/right, Columns.move_cursor_to_coords and the GridFlow rows give "
                   "the focus to had selectable()==True; the tree-wide statement is a Definition decided by correspondence + oracle. "
-                  "REFUTED with model witnesses replayed on the code: the Frame clause for Frame(body, header=None, "
-                  "focus_part='header'); 'an unhandled key comes back unchanged' for a Pile with a stale cache and for an empty "
-                  "Columns (IndexError) - recorded as known findings.  The range tests of the focus_position setters and the "
+                  "REFUTED with a model witness replayed on the code: the Frame clause for Frame(body, header=None, "
+                  "focus_part='header') - the one known finding.  The range tests of the focus_position setters and the "
                   "key->command table are re-translated from the source each run; all other model code is hand-written and tied by an "
                   "exact extracted-model correspondence (8.6k cases per quick run: op results, offered leaves, leaves rendered with "
                   "focus, every container's focus_position and selectable(), get_focus_path after every operation).")
@@ -1455,7 +1476,9 @@ class C08(core.Check):
                         ops1 += [["setpos", path, p] for p in range(-1, n + 2)] + [["setpos", path, 199], ["setpos", path, 101]]
                         ops1 += [["press", path + [j], 0] for j in range(n)]
                         ops1 += [["edit", path, e] for e in (["append", spare], ["insert", 0, spare], ["delitem", 0], ["delitem", -1],
-                                                             ["clear"], ["reverse"], ["assign", [spare]], ["pop", n])]
+                                                             ["clear"], ["reverse"], ["assign", [spare]], ["pop", n],
+                                                             ["remove", spare], ["iadd", [spare]])]
+                        ops1 += [["edit", path, ["remove", j]] for j in range(n)]
                         for op in ops1:
                             yield {"W": W, "H": H, "root": root, "nodes": nodes, "ops": [op, ["key", "down"]] if deep else [op]}
 
